@@ -538,6 +538,40 @@ def run(ctx):
             events.append({"kind": "sync", "d": 0, "idx": -1, "samestart": False, "raised": raised, "short": True})
             meta.append(("sync-short", w_i, sps, "", 0))
             ctx.case(("sync-other-sps", w_i, sps))
+    # a pattern buffer that is REFILLED IN PLACE between acquisitions (same array object, same size, same sps): every call aligns to
+    # the pattern its argument holds at the time of the call (C20_r12m1: reference waveform cached by object identity)
+    for w_i, (wa, wb) in enumerate([("1110010110000100", "0010000110100111"), ("1111100110101", "1010110011111")]):
+        buf = np.array([int(c) for c in wa], dtype=np.uint8)
+        holder = _bs2(wa)
+        for j_, word in enumerate([wa, wb, wa, wb]):
+            sps = 4
+            new = np.array([int(c) for c in word], dtype=np.uint8)
+            buf[:] = new
+            try:
+                holder.data[:] = new
+            except Exception:
+                holder = _bs2(word)
+            tx = np.kron(new, np.ones(sps))
+            l = tx.size
+            d = [7, 21 % l, l - 2, 0][j_]
+            np.random.seed(950 + j_)
+            rx = np.roll(np.tile(tx, 3), d).astype(float) + 0.05 * np.random.randn(3 * l)
+            for style in ("array", "sequence"):
+                raised, idx, same = "none", -1, False
+                try:
+                    with deadline(60):
+                        if style == "sequence":
+                            gv(sps=sps, R=1e9)
+                            out, idx = lab.SYNC(electrical_signal(rx), holder)
+                        else:
+                            out, idx = lab.SYNC(rx, buf, sps)
+                    idx = int(idx)
+                    same = bool(out.len() > 0 and np.array_equal(out.signal[:16], rx[d:d + 16]))
+                except Exception as e:
+                    raised = type(e).__name__
+                events.append({"kind": "sync", "d": int(d), "idx": idx, "samestart": same, "raised": raised, "short": False})
+                meta.append(("sync-buffer-refilled-in-place", w_i, style, "d=0" if d == 0 else "d>0", 0.05))
+                ctx.case(("sync-refilled", w_i, style, j_))
     gv.clean()
     validate(ctx, events, meta, 1024, 2 ** 21, "SYNC")
 
